@@ -25,9 +25,17 @@ def distributions(m, N):
 def build_basis_tree(parent, groups, basis_list):
     """parent: preorder parent vector; groups[i]: indices into basis_list for node i (empty -> dummy node)"""
     from renormalizer.tn import BasisTree, TreeNodeBasis
+    from renormalizer.model.basis import BasisDummy
+    qs = np.asarray(basis_list[0].sigmaqn).reshape(basis_list[0].nbas, -1).shape[1]
     nodes = []
-    for g in groups:
-        nodes.append(TreeNodeBasis([basis_list[j] for j in g]) if g else TreeNodeBasis())
+    for i, g in enumerate(groups):
+        if g:
+            nodes.append(TreeNodeBasis([basis_list[j] for j in g]))
+        elif qs == 1:
+            nodes.append(TreeNodeBasis())
+        else:
+            # the default virtual basis carries a one-component label; with several components it has to be given explicitly
+            nodes.append(TreeNodeBasis([BasisDummy(("Virtual DOF", i), sigmaqn=[[0] * qs])]))
     for i, p in enumerate(parent):
         if p >= 0:
             nodes[p].add_child(nodes[i])
